@@ -689,7 +689,7 @@ func (g *fastGenerator) unmarshalMapField(varName string, field *protogen.Field)
 		g.P(`if postbytesIndex > l {`)
 		g.P(`return `, protoifacePkg.Ident("UnmarshalOutput"), "{NoUnkeyedLiterals: input.NoUnkeyedLiterals, Flags: input.Flags},", g.Ident("io", `ErrUnexpectedEOF`))
 		g.P(`}`)
-		g.P(varName, ` = make([]byte, mapbyteLen)`)
+		g.P(varName, ` = make([]byte, postbytesIndex-iNdEx)`)
 		g.P(`copy(`, varName, `, dAtA[iNdEx:postbytesIndex])`)
 		g.P(`iNdEx = postbytesIndex`)
 	case protoreflect.Uint32Kind:
